@@ -518,7 +518,8 @@ func (m *observerManager) Reset() {
 		return
 	}
 
-	for i := range m.maxEventType + 1 {
+	// Iterate as int, as maxEventType+1 overflows for the highest event type.
+	for i := 0; i <= int(m.maxEventType); i++ {
 		if !m.hasObservers[i] {
 			continue
 		}
